@@ -341,7 +341,7 @@ Fixpoint ty_small (t : ty) : Prop :=
   match t with
   | TArr t' => ty_small t'
   | TStruct fs => (fix all (l : list ty) : Prop := match l with [] => True | f :: r => ty_small f /\ all r end) fs
-  | TEnum w _ | TFlags w _ => (0 < w <= 8)%nat
+  | TEnum w _ | TFlags w _ | TEnumD w _ _ => (0 < w <= 8)%nat
   | _ => True
   end.
 
@@ -371,7 +371,7 @@ Section Opts2.
   Lemma safe_dec_ty d : forall t, ty_small t -> safe (Z.of_nat d) B any (dec_ty t o d).
   Proof.
     assert (Hd : 0 <= Z.of_nat d) by lia. pose proof (B_nonneg o Hv) as HB. fold B in HB.
-    induction t as [k| | |t IH|fs IH|w vals|w b] using C01.TypesProofs.ty_ind'; intros Hs; cbn [dec_ty].
+    induction t as [k| | |t IH|fs IH|w vals|w b|w vals dflt] using C01.TypesProofs.ty_ind'; intros Hs; cbn [dec_ty].
     - sbind; [apply safe_dec_scalar; exact Hv|]. s1.
     - sbind; [apply safe_dec_variant; exact Hv|]. s1.
     - sbind; [apply safe_dec_dv|]. s1.
@@ -386,6 +386,10 @@ Section Opts2.
           (eapply safe_weaken; [|s1]; intros; exact I).
       + intros ? _. apply safe_if; intros _; s1.
     - cbn [ty_small] in Hs. sbind; [s1|]. s1.
+    - cbn [ty_small] in Hs. eapply safe_bind with (Q := @any Z).
+      + destruct w as [|[|w]]; [lia| |]; cbn [read_enum];
+          (eapply safe_weaken; [|s1]; intros; exact I).
+      + intros ? _. s1.
   Qed.
 
   Lemma safe_msg_header : safe 0 B any dec_msg_header.
@@ -469,10 +473,35 @@ Proof.
   destruct (decode dk o bs) as [[[a rest]|e|p] s]; [|exact H|exact H]. destruct H as (_ & _ & H). exact H.
 Qed.
 
+Fixpoint ty_smallb (t : ty) : bool :=
+  match t with
+  | TArr t' => ty_smallb t'
+  | TStruct fs => (fix all (l : list ty) : bool := match l with [] => true | f :: r => ty_smallb f && all r end) fs
+  | TEnum w _ | TFlags w _ | TEnumD w _ _ => Nat.ltb 0 w && Nat.leb w 8
+  | _ => true
+  end.
+Lemma ty_smallb_ok : forall t, ty_smallb t = true -> ty_small t.
+Proof.
+  induction t as [k| | |t IH|fs IH|w vals|w b|w vals dflt] using ty_ind'; cbn [ty_smallb ty_small]; intros H; auto.
+  - induction IH as [|f fs Hf Hfs IHfs]; [exact I|]. apply andb_true_iff in H. destruct H as [H1 H2].
+    split; [apply Hf, H1|apply IHfs, H2].
+  - apply andb_true_iff in H. destruct H as [H1 H2]. apply Nat.ltb_lt in H1. apply Nat.leb_le in H2. lia.
+  - apply andb_true_iff in H. destruct H as [H1 H2]. apply Nat.ltb_lt in H1. apply Nat.leb_le in H2. lia.
+  - apply andb_true_iff in H. destruct H as [H1 H2]. apply Nat.ltb_lt in H1. apply Nat.leb_le in H2. lia.
+Qed.
+Lemma all_structs_small : Forall ty_small all_structs.
+Proof.
+  apply Forall_forall. intros t Ht. apply ty_smallb_ok.
+  assert (H : forallb ty_smallb all_structs = true) by (vm_compute; reflexivity).
+  rewrite forallb_forall in H. apply H, Ht.
+Qed.
+
 Lemma dk_small_all dk : dk_small dk.
 Proof.
   unfold dk_small, decoder_of.
-  repeat match goal with |- context [if ?c then _ else _] => destruct c end; cbn; auto.
+  repeat match goal with |- context [if ?c then _ else _] => destruct c end; cbn [ty_small]; auto.
+  destruct (nth_in_or_default (Z.to_nat (dk - 100)) all_structs (TS 1)) as [Hin | ->]; [|exact I].
+  pose proof all_structs_small as H. rewrite Forall_forall in H. apply H, Hin.
 Qed.
 
 Lemma repeat_concat_bytes u n : byte_list u -> byte_list (concat (repeat u n)).
@@ -492,14 +521,16 @@ Proof.
     match decode dk o bs with
     | (Ok (p, rest), s) =>
         (0 <=? zlen bs - zlen rest) && (zlen bs - zlen rest <=? zlen bs)
-        && (st_depth s <=? max_depth o) && (floor_alloc (st_alloc s) <=? alloc_bound o) = true
-    | (Err _, s) => (st_depth s <=? max_depth o) && (floor_alloc (st_alloc s) <=? alloc_bound o) = true
+        && (st_depth s <=? max_depth o)
+        && ((if tracks_alloc dk then floor_alloc (st_alloc s) else 0) <=? alloc_bound o) = true
+    | (Err _, s) => (st_depth s <=? max_depth o)
+        && ((if tracks_alloc dk then floor_alloc (st_alloc s) else 0) <=? alloc_bound o) = true
     | (Panic _, _) => False
     end).
   { intros dk o bs Ho Hbs. pose proof (safe_decode o Ho dk (dk_small_all dk) bs Hbs) as H.
     pose proof (B_nonneg o Ho) as HB.
-    assert (Hfl : forall a, a <= alloc_bound o -> floor_alloc a <= alloc_bound o).
-    { intros a Ha. unfold floor_alloc. destruct (ALLOC_FLOOR <=? a); lia. }
+    assert (Hfl : forall a, a <= alloc_bound o -> (if tracks_alloc dk then floor_alloc a else 0) <= alloc_bound o).
+    { intros a Ha. unfold floor_alloc. destruct (tracks_alloc dk); [|lia]. destruct (ALLOC_FLOOR <=? a); lia. }
     destruct (decode dk o bs) as [[[p rest]|e|pp] s]; [| |exact H].
     - destruct H as (_ & [_ Hlen] & H1 & H2). specialize (Hfl _ H2). unfold zlen.
       repeat (apply andb_true_intro; split); apply Z.leb_le; lia.
